@@ -286,6 +286,21 @@ def api_witness(prop: str, func: str):
             for f in b.failures:
                 if short in f.get("what", "") or short in f.get("key", "") or check.endswith("no_exception"):
                     return {"config": f.get("config"), "src": f.get("input"), "what": f.get("what")}
+    if ".rules_inline." in func or ".helpers." in func or "StateInline" in func or "parser_inline" in func:
+        # inline side: the run-time contract monitor of the delimiter pipeline first (its failures name the function), then
+        # the token-stream oracle, over the inline fragment and delimiter universes
+        short = func.split(".")[-1]
+        runs = [("vf.checks:delim_contracts", "inline", dict(k=3)), ("vf.checks:delim_contracts", "gen", dict(k=0, gen="vf.universe:gen_emph", gen_args=("quick",))),
+                ("vf.checks:inline_contracts", "inline", dict(k=3)), ("vf.oracles:c02_stream", "gen", dict(k=0, gen="vf.universe:gen_emph", gen_args=("quick",))),
+                ("vf.oracles:c02_stream", "inline", dict(k=3))]
+        for check, kind, kw in runs:
+            k = kw.pop("k")
+            b = bounded.run(check, kind, k, ["commonmark", "cm+table+strike"], func, "api witness search", "", **kw)
+            named = [f for f in b.failures if func in f.get("key", "") or short in f.get("what", "")]
+            pick = named or (b.failures if check.startswith("vf.oracles") else [])
+            if pick:
+                f = pick[0]
+                return {"config": f.get("config"), "src": f.get("input"), "what": f.get("what")}
     return None
 
 
